@@ -139,7 +139,7 @@ pub fn adversarial_naming(spec: &Spec, ch: &mut Chooser) -> AdvNaming {
     let mut collisions = vec![];
     let mut excluded = vec![];
     let mut top: Vec<String> = vec![];
-    let mut take_upper = |ch: &mut Chooser, taken: &mut Vec<String>, collisions: &mut Vec<String>| -> String {
+    let take_upper = |ch: &mut Chooser, taken: &mut Vec<String>, collisions: &mut Vec<String>| -> String {
         let (b, hot) = pick_upper(ch);
         let n = uniq(b, taken);
         if hot {
